@@ -188,6 +188,15 @@ def gs_indicator(g, w, coeff=1):
 
 def gs_from(v, w):
     if isinstance(v, GSum):
+        if v.w != w:
+            # a merge of untyped constants (phi of literals) defaults to 64 bits: re-wrap to the width of the use
+            m = (1 << w) - 1
+            terms = {}
+            for k, (g, c) in v.terms.items():
+                cc = canon(c, v.w, True) & m
+                if cc:
+                    terms[k] = (g, cc)
+            return GSum(w, canon(v.const, v.w, True) & m, terms)
         return v
     if isinstance(v, int):
         return GSum(w, v, {})
